@@ -337,11 +337,15 @@ class Checker:
                     get_return_override=get_return_override,
                     get_call_attribute=get_call_attribute,
                 )
-            if getattr(typ.__call__, "__objclass__", None) is type and not issubclass(
-                typ, type
+            call_fn = safe_getattr(typ, "__call__", None)
+            if call_fn is None:
+                # e.g. a super object, which forwards attribute access to the
+                # classes after the current one and may find no __call__ there
+                return None
+            if getattr(call_fn, "__objclass__", None) is type and not (
+                isinstance(typ, type) and issubclass(typ, type)
             ):
                 return None
-            call_fn = typ.__call__
             sig = self.arg_spec_cache.get_argspec(call_fn)
             return_override = get_return_override(sig)
             bound_method = make_bound_method(
